@@ -14,6 +14,7 @@ mod dynval;
 mod emit;
 mod options;
 mod perm;
+mod preproc;
 mod files;
 mod proj_c03;
 mod proj_c04;
@@ -72,6 +73,8 @@ fn run_case(engine: &str, f: &[&str]) -> CaseResult {
         ("codec", ["skip", _fam, hx, exp]) => codec::run_skip(hx, exp),
         ("codec", ["reply", _fam, hx, exp]) => codec::run_reply(hx, exp),
         ("emit", [op @ ("emit" | "emitc"), fam, format, files, diags, exp]) => emit::run_emit(op, fam, format, files, diags, exp),
+        ("preproc", ["pp", _fam, text, syms, exp @ ..]) if !exp.is_empty() => preproc::run_pp(text, syms, &exp.join(" ")),
+        ("preproc", ["multi", fam, files, syms, exp @ ..]) if !exp.is_empty() => preproc::run_multi(fam, files, syms, &exp.join(" ")),
         ("files", ["tree", _fam, tree, argv, exp]) => files::run_tree(tree, argv, exp),
         ("compile", ["perm", _fam, opts, files, orders, exp]) => perm::run_perm(opts, files, orders, exp),
         ("compile", ["compile", _fam, proj, opts, files, exp]) => compile::run_compile(proj, opts, files, exp),
@@ -164,8 +167,8 @@ fn main() {
             f[..f.len() - 1].hash(&mut h);
             st.distinct_nontrivial.insert(h.finish());
         }
-        if let Some(d) = res.diff { st.diffs += 1; if st.diffs <= 200 { writeln!(out, "DIFF\t{}\t{}", line.replace('\t', " "), d).unwrap(); } }
-        if let Some(d) = res.oracle { st.oracle += 1; if st.oracle <= 200 { writeln!(out, "ORACLE\t{}\t{}", line.replace('\t', " "), d).unwrap(); } }
+        if let Some(d) = res.diff { st.diffs += 1; if st.diffs <= 200 { writeln!(out, "DIFF\t{}\t{}", line.replace('\t', "\u{1f}"), d).unwrap(); } }
+        if let Some(d) = res.oracle { st.oracle += 1; if st.oracle <= 200 { writeln!(out, "ORACLE\t{}\t{}", line.replace('\t', "\u{1f}"), d).unwrap(); } }
     }
     // peak resident set of the whole run: a decoder whose memory follows announced sizes shows up here
     let hwm_kb: u64 = std::fs::read_to_string("/proc/self/status").ok().and_then(|t| t.lines().find(|l| l.starts_with("VmHWM:"))
